@@ -313,7 +313,18 @@ func driveC16(c *Ctx) {
 // slices with spare capacity (as append and json.Unmarshal produce), and nested schemas.
 func overrideSchema(name string, k int) *jsonschema.Schema {
 	title := fmt.Sprintf("override-%s-%d", name, k)
-	switch (len(name) + k) % 4 {
+	switch (len(name) + k) % 5 {
+	case 4:
+		// every subschema-holding keyword is populated: whatever copies an entry must copy all of them
+		var s jsonschema.Schema
+		json.Unmarshal([]byte(`{"type":"object","title":"`+title+`","items":[{"type":"string"},{"type":"integer"}],"additionalItems":{"type":"null"},
+			"prefixItems":[{"type":"boolean"}],"contains":{"type":"number"},"unevaluatedItems":{"type":"string"},
+			"properties":{"o":{"type":"string"}},"patternProperties":{"^x":{"type":"integer"}},"additionalProperties":{"type":"string"},
+			"propertyNames":{"maxLength":9},"unevaluatedProperties":{"type":"null"},"dependentSchemas":{"o":{"required":["o"]}},
+			"dependencies":{"p":{"required":["o"]},"q":["o"]},"allOf":[{"title":"a"}],"anyOf":[{"title":"b"},{"title":"c"}],"oneOf":[{"title":"d"}],
+			"not":{"title":"e"},"if":{"title":"f"},"then":{"title":"g"},"else":{"title":"h"},"contentSchema":{"title":"i"},
+			"$defs":{"k":{"title":"j"}},"definitions":null}`), &s)
+		return &s
 	case 0:
 		return &jsonschema.Schema{Type: "object", Title: title,
 			Properties: map[string]*jsonschema.Schema{"o": {Type: "string"}, "p": {Types: []string{"integer", "string"}}}}
